@@ -2,7 +2,8 @@
 # usage: tools/confirm_mut.sh C05 m1 "<needs>"   — confirm a sub-agent's change in its scratch worktree, then keep it under seeded/
 set -u
 P=$1; M=$2; NEEDS=${3:-}
-WT=/tmp/wt/$P
+WTR=${WT_ROOT:-/tmp/wt2}
+WT=$WTR/$P
 ID=$P-$M
 cd $WT || exit 2
 git reset -q --hard HEAD
@@ -10,17 +11,17 @@ git checkout -q --detach $(git -C /repo rev-parse HEAD) || exit 2
 cp /repo/petl/version.py petl/version.py
 git apply -3 $M.diff >/dev/null 2>&1 || { echo "$ID: patch does not apply on current HEAD"; exit 1; }
 git reset -q
-git diff -- petl > /tmp/wt/$ID.patch
+git diff -- petl > $WTR/$ID.patch
 T=$(PYTHONPATH=$WT /venv/bin/python -m pytest -q -p no:cacheprovider --timeout=900 2>&1 | tail -1)
-PYTHONPATH=$WT /venv/bin/python demo_$M.py >/tmp/wt/$ID.with.log 2>&1; W=$?
+PYTHONPATH=$WT /venv/bin/python demo_$M.py >$WTR/$ID.with.log 2>&1; W=$?
 git reset -q --hard HEAD
-PYTHONPATH=$WT /venv/bin/python demo_$M.py >/tmp/wt/$ID.without.log 2>&1; WO=$?
+PYTHONPATH=$WT /venv/bin/python demo_$M.py >$WTR/$ID.without.log 2>&1; WO=$?
 echo "$ID: tests[$T] demo-with=$W demo-without=$WO"
 case "$T" in *failed*|*error*) echo "$ID: REJECT tests fail"; exit 1;; esac
 if [ $W -ne 1 ] || [ $WO -ne 0 ]; then echo "$ID: REJECT demo"; exit 1; fi
 D=/verif/seeded/$ID
 mkdir -p $D
-cp /tmp/wt/$ID.patch $D/patch.diff
+cp $WTR/$ID.patch $D/patch.diff
 cp demo_$M.py $D/demo.py
 python3 - "$P" "$ID" "$NEEDS" "$T" <<'PY'
 import json,sys
